@@ -27,6 +27,9 @@ c=m.get('confirmed_by_verif',{}).get('checks_quick_exit_codes','')
 print(' '.join(x.split('=')[0] for x in c.split()))")
     [ -z "$checks" ] && checks=${id:0:3}
     res=$(VERIF_SEED_ONLY_CHECKS=1 ./seedrun.sh $id x x x x $checks 2>&1)
+    if echo "$res" | grep -q "does not apply\|build with the change failed"; then
+      echo "seeded|$id|-|NOAPPLY|patch does not apply to /repo HEAD or does not build" | tee -a "$TMP"
+    fi
     echo "$res" | grep "check C" | while read -r line; do
       chk=$(echo "$line" | sed -n 's/.*check \(C[0-9]*\) .*/\1/p')
       rc=$(echo "$line" | sed -n 's/.*-> exit \([0-9]*\).*/\1/p')
